@@ -167,8 +167,25 @@ theorem wf_iff (i : Identity) : i.wf = true ↔ i.td ≠ [] ∧ '/' ∉ i.td ∧
 theorem peerOK_some {req : Request} {i : Identity} (h : req.peerOK = true) (hp : req.peer = some i) :
     (i.td ≠ [] ∧ '/' ∉ i.td ∧ '/' ∉ i.ns ∧ '/' ∉ i.sa) ∧ i.td ≠ "ns".toList ∧ i.ns ≠ "ns".toList := by
   simp only [Request.peerOK, hp, Option.all_some, Bool.and_eq_true] at h
-  refine ⟨(wf_iff i).1 h.1, ?_⟩
-  simpa [Identity.nsSafe] using h.2
+  refine ⟨(wf_iff i).1 h.1.1, ?_⟩
+  simpa [Identity.nsSafe] using h.1.2
+
+/-- Under `peerOK` every header the request carries (pseudo-headers included) has a non-empty value. -/
+theorem lookupHeader_ne_nil {req : Request} {h : Http} (hr : req.peerOK = true) (hh : req.http = some h)
+    (name x : Str) (hl : lookupHeader name h = some x) : x.isEmpty = false := by
+  simp only [Request.peerOK, hh, Option.all_some, Bool.and_eq_true, Bool.not_eq_true', List.all_eq_true] at hr
+  obtain ⟨-, ⟨hhost, hmeth⟩, hhdr⟩ := hr
+  unfold lookupHeader at hl
+  split at hl
+  · simp only [Option.some.injEq] at hl; subst hl; exact hhost
+  · split at hl
+    · simp only [Option.some.injEq] at hl; subst hl; exact hmeth
+    · cases hf : h.headers.find? (fun e => lower e.1 == lower name) with
+      | none => simp [hf] at hl
+      | some e =>
+        simp only [hf, Option.map_some, Option.some.injEq] at hl
+        subst hl
+        exact hhdr e (List.mem_of_find?_eq_some hf)
 
 theorem matcher_correct_namespace_partial (key v : Str) (tcp auth : Bool) (req : Request)
     (hv : nsValueExact v = true) (hr : req.peerOK = true) :
@@ -325,7 +342,19 @@ theorem matcher_correct_principals (g : Gen) (key v : Str) (tcp auth : Bool) (re
       simp only [hn, Option.some.injEq] at hp
       subst hp
       rw [headerMatcher, matcher_correct_header]
-      simp [specAtom, hn]
+      simp only [specAtom, hn]
+      cases hh : req.http with
+      | none => rfl
+      | some h =>
+        simp only [Option.any_some]
+        cases hl : lookupHeader name h with
+        | none => rfl
+        | some x =>
+          simp only [Option.any_some]
+          by_cases hv' : v = star
+          · have := lookupHeader_ne_nil hr hh name x hl
+            simp [hv', hdrForm, this]
+          · simp [hv']
   all_goals (intro p hp; simp only [genPrincipal] at hp; cases hp)
 
 
@@ -364,5 +393,24 @@ theorem matcher_namespace_complete (key v : Str) (tcp auth : Bool) (req : Reques
     simp only [specAtom, h, Option.any_some] at hs
     simp only [peerName, h, Option.map_some, Option.any_some, evalStrM]
     exact rx_ns_complete v i hs
+
+/-- Full-strength statement for `request.headers[..]`: exact for every request. -/
+def HeaderMatcherExact : Prop :=
+  ∀ (key v : Str) (auth : Bool) (req : Request), PrinAtomExact .requestHeader key v false auth req
+
+def headerWitnessReq : Request :=
+  { srcIP := 0, remoteIP := 0, dstIP := 0, dstPort := 80, sni := [], peer := none,
+    http := some { host := "example.com".toList, method := "GET".toList, path := "/".toList,
+                   headers := [("x-token".toList, [])] },
+    metadata := [] }
+
+/-- The full statement is FALSE: the value `*` compiles to `present_match: true`, which a header
+    with an EMPTY value satisfies, while the API documents `*` as "the value is not empty"
+    (finding 4; replayed on the real code: corpus `requests.header-presence.ops`). -/
+theorem matcher_correct_header_witness : ¬ HeaderMatcherExact := by
+  intro h
+  have := h "request.headers[x-token]".toList star true headerWitnessReq _ rfl
+  revert this
+  decide
 
 end IstioModel.C08
